@@ -631,6 +631,50 @@ def run(ctx):
     first_use = [s for s in walk_no_nested(rmf) if isinstance(s, ast.Assign)
                  and is_conformations(rcan.text(s.value))
                  and not isinstance(s.targets[0], (ast.Tuple, ast.List, ast.Name))]
+    # the rejection is a ValueError also for a pathlib.Path argument: building
+    # the message must not raise, and '{:s}' applied to a Path does (TypeError:
+    # unsupported format string passed to PosixPath.__format__)
+    import string as _string
+    fparams = {a.arg: a for a in rmf.args.args}
+
+    def surely_str(e):
+        e = rcan.expr(e) if isinstance(e, ast.Name) and e.id not in fparams else e
+        if isinstance(e, ast.Constant):
+            return isinstance(e.value, str)
+        if isinstance(e, ast.Call) and call_name(e) in ('str', 'repr'):
+            return True
+        if isinstance(e, ast.Attribute) and e.attr in ('suffix', 'stem', 'name'):
+            return True
+        if isinstance(e, ast.Call) and isinstance(e.func, ast.Attribute) and e.func.attr in (
+                'lower', 'upper', 'strip', 'format', 'join'):
+            return True
+        return False
+    unsafe = []
+    for r in raises:
+        msg = r.exc.args[0] if isinstance(r.exc, ast.Call) and r.exc.args else None
+        msg = rcan.expr(msg) if isinstance(msg, ast.Name) else msg
+        if isinstance(msg, ast.Call) and isinstance(msg.func, ast.Attribute) and msg.func.attr == 'format' \
+                and isinstance(msg.func.value, ast.Constant) and isinstance(msg.func.value.value, str):
+            auto = 0
+            for _lit, field, spec, conv in _string.Formatter().parse(msg.func.value.value):
+                if field is None:
+                    continue
+                idx = auto if field == '' else (int(field) if field.isdigit() else None)
+                auto += 1 if field == '' else 0
+                arg = msg.args[idx] if idx is not None and idx < len(msg.args) else next(
+                    (k.value for k in msg.keywords if k.arg == field), None)
+                if (spec or '').endswith('s') and not conv and arg is not None and not surely_str(arg):
+                    unsafe.append((r, norm(arg)))
+        if isinstance(msg, ast.JoinedStr):
+            for v in msg.values:
+                if isinstance(v, ast.FormattedValue) and v.conversion == -1 and v.format_spec is not None \
+                        and norm(v.format_spec).rstrip("'\"").endswith('s') and not surely_str(v.value):
+                    unsafe.append((r, norm(v.value)))
+    ctx.ob('C12.R4', 'rejection:message-cannot-raise', not unsafe,
+           'the messages of the two rejections format only values that are strings with an "s" '
+           'specification (a str-or-PathLike argument given as pathlib.Path raises TypeError inside '
+           'str.format, before the ValueError exists): %s' % [a for _r, a in unsafe],
+           imod, unsafe[0][0] if unsafe else rmf)
     # "before": every use is reached only with a non-empty result (dominated by
     # the negation of the rejecting test), wherever the two stand in the text
     def nonempty_at(node):
@@ -745,6 +789,7 @@ def run(ctx):
            'backbone carbonyl, and the atom\'s bonds to tell a tagged N-terminus from a nitrogen '
            'that is peptide-bonded to a preceding residue (either way a group is created for the '
            'atom): %s' % sorted(ipg_names), gmod, ipg)
+    common.check_mapped_sidechain_always_created(ctx, 'C12.R5', prog)
     common.check_bridge_not_titrated(ctx, 'C12.R5', prog)
     ctx.assume('distinct atoms have distinct coordinates (vector lengths used as denominators are '
                'non-zero)')
